@@ -4,4 +4,9 @@ CHECKS = {
         "note": "Trusted: Lean kernel, harness (child process protocol), model of strconv.Atoi (validated differentially every run). Kernel fd semantics and net.FileListener are the model's `kind` parameter.",
         "technique": "Lean 4 theorems (decision logic iff) + exhaustive differential correspondence over the environment product",
     },
+    "C19": {
+        "text": "Lean theorems over the model of parseAddress/Bind/setListener and of NewConnection's parsing: bind_total (no panic for any string and state), the three refusal theorems (no '<protocol>:' prefix, protocol other than unix/tcp, empty unix path) and refused_while_running, accepts_iff (the OS is asked to listen iff the string is valid), bind_history_free and bind_again_after_any_bind (outcome depends on the string alone; any bind leaves the service able to bind again), tail_ignored_both_sides (service and client read the same endpoint: protocol and text up to the first ';'), abstract_iff_at and tcp_no_fs (stale-file removal and unlink-on-close exactly for filesystem unix sockets). Tied to service.go/connection.go by bind sequences, serve/connect/shutdown cycles and file-system observations on generated address strings.",
+        "note": "Partial: net.Listen/net.Dial and the file system are the environment (modelled as parameters; their behaviour is observed, not proved). Trusted: Lean kernel, harness.",
+        "technique": "Lean 4 theorems (totality, decision logic iff, history freedom) + differential correspondence on an address grammar",
+    },
 }
